@@ -320,7 +320,7 @@ def rule_f(ctx):
 
 def rule_g(ctx):
   idx = ctx.index
-  f = idx.func(FN + '_on_change')
+  f = _bookkeeping_fn(idx)
   loops = [n for n in ast.walk(f.node) if isinstance(n, ast.For) and 'field_updates' in A.unparse(n.iter)]
   problems = []
   if not loops:
@@ -335,7 +335,7 @@ def rule_g(ctx):
     for s in f.node.body[:max(idxl, 0)]:
       if any(isinstance(x, ast.Return) for x in ast.walk(s)):
         problems.append('an early return precedes the update loop')
-  ctx.ob('C18.g', f.fq, not problems,
+  ctx.ob('C18.g', FN + '_on_change', not problems,
          'Functor._on_change updates its bound-argument bookkeeping for every top-level update of a '
          'batch (nested paths are skipped one by one, never by leaving the loop)', f.loc,
          '; '.join(problems))
@@ -347,7 +347,7 @@ def rule_h(ctx):
   marker and (re-)enters it on every other rebind - also when the new value
   happens to equal the default (`factor=1.0` over default `1` is a binding)."""
   idx = ctx.index
-  f = idx.func(FN + '_on_change')
+  f = _bookkeeping_fn(idx)
   g = C.cfg_of(f.node)
   def calls(n, what):
     return any(A.call_name(c) == what for c in n.calls())
@@ -406,7 +406,7 @@ def rule_h(ctx):
             seen2, _ = g.reach(m, blocked_nodes={x.id for x in adds}, follow_exc=False)
             if any(k.id in seen2 for k in loops) or g.exit.id in seen2:
               problems.append('a non-MISSING rebind can leave the specified set unchanged')
-  ctx.ob('C18.h', f.fq, not problems,
+  ctx.ob('C18.h', FN + '_on_change', not problems,
          'an argument is "specified" exactly when its current value is not the MISSING marker (equality with the '
          'default plays no role)', f.loc, '; '.join(sorted(set(problems))))
 
@@ -709,6 +709,43 @@ def rule_o(ctx):
          '; '.join(bad))
 
 
+def _bookkeeping_fn(idx):
+  """The function that maintains the specified/default sets for a batch of updates:
+  Functor._on_change itself, or the private helper it hands the updates to."""
+  f = idx.func('pyglove.core.symbolic.functor.Functor._on_change')
+  def has_marks(fn):
+    return any((A.call_name(c) or '').startswith('self._specified_args.') for c in A.calls_in(fn.node))
+  if has_marks(f):
+    return f
+  for c in A.calls_in(f.node):
+    d = A.call_name(c) or ''
+    if d.startswith('self._') and d.count('.') == 1:
+      h = idx.lookup_method('pyglove.core.symbolic.functor.Functor', d.split('.')[1])
+      if h is not None and has_marks(h):
+        return h
+  raise AnalysisError('Functor._on_change: the bookkeeping of bound arguments vanished')
+
+
+def rule_r(ctx):
+  """The call uses what the functor reports, also after a change that was not notified
+  (`notify_on_change(False)`, `skip_notification=True`): the bookkeeping that `_on_change`
+  does is also reached from `_sym_on_silent_change`, the hook the un-notified branches of
+  rebind call with the updates.  Pre-fix `x.rebind(b=5)` under notify_on_change(False)
+  left `specified_args == {'a'}` and the call passed the default for b."""
+  idx = ctx.index
+  bk = _bookkeeping_fn(idx)
+  h = idx.lookup_method('pyglove.core.symbolic.functor.Functor', '_sym_on_silent_change')
+  own = h is not None and idx.enclosing_class(h).name == 'Functor'
+  reaches = own and (h is bk or any(A.call_name(c) == f'self.{bk.name}' for c in A.calls_in(h.node)))
+  base_hook = idx.func('pyglove.core.symbolic.base.Symbolic._sym_reset_content_caches')
+  passes = any((A.call_name(c) or '').endswith('._sym_on_silent_change') and (c.args or c.keywords) for c in A.calls_in(base_hook.node))
+  ctx.ob('C18.r', 'Functor._sym_on_silent_change#bookkeeping', bool(reaches) and passes,
+         'the bound-argument bookkeeping also runs for changes that are not notified (the hook receives the updates)',
+         (h or bk).loc, 'Functor does not maintain its specified/default sets on the silent-change hook'
+         + ('' if passes else ' (the hook is not given the updates)') +
+         ': with pg.notify_on_change(False): x.rebind(b=5) -> x() still passes the default of b')
+
+
 def rule_p(ctx):
   """The call uses the arguments the functor reports: the sets `specified_args` /
   `default_args` / `non_default_args`, from which the call decides what to pass, are
@@ -717,7 +754,7 @@ def rule_p(ctx):
   2})`, `x.args.append(5)`), which used to be skipped with a bare `continue`: the value
   changed, `sym_init_args` showed it, and the call kept passing the default."""
   idx = ctx.index
-  f = idx.func('pyglove.core.symbolic.functor.Functor._on_change')
+  f = _bookkeeping_fn(idx)
   g = C.cfg_of(f.node)
   loops = [n for n in ast.walk(f.node) if isinstance(n, ast.For)]
   if not loops:
@@ -768,6 +805,7 @@ def run(ctx):
   ctx.consult(*FILES)
   rule_p(ctx)
   rule_q(ctx)
+  rule_r(ctx)
   rule_a(ctx)
   rule_b(ctx)
   rule_c(ctx)
